@@ -5,3 +5,4 @@ import SoxrModel.Properties.C18
 #print axioms Soxr.Properties.C18.nothing_after_failure
 #print axioms Soxr.Properties.C18.failure_is_sticky
 #print axioms Soxr.Properties.C18.process_request_bound
+#print axioms Soxr.Properties.C18.supplied_consumed_once
